@@ -7,6 +7,8 @@
 From Coq Require Import Reals List Bool.
 From OSU.Model Require Import Roughness.
 From OSU.Proofs Require Import Roughness.
+From OSU.Generated Require RoughnessSrc.
+From OSU.Proofs Require Import RoughnessGen.
 Import ListNotations.
 Open Scope R_scope.
 
@@ -20,6 +22,25 @@ Theorem charnock_def_nonpositive : forall P us, us <= 0 ->
 Proof. exact charnock_def_nonpos. Qed.
 
 (* one step of the iteration: u* = kappa U / ln(elev / z), then the Charnock relation *)
+(* ---- the tie to the source: coq/Generated/RoughnessSrc.v is regenerated from wavephysics/roughness.py on every
+   run (harness/translate_pointwise.py); the closed-form functions as the source states them are the model *)
+Theorem source_charnock_is_the_model : forall P us,
+  RoughnessSrc.charnock_roughness_length us (c_alpha P) (c_g P) (c_nu P) (c_visc P) = charnock P us.
+Proof. exact src_charnock. Qed.
+
+Theorem source_charnock_defaults :
+  RoughnessSrc.charnock_roughness_length_default_charnock_constant = 12 / 1000 /\
+  RoughnessSrc.charnock_roughness_length_default_viscous_constant = 0.
+Proof. exact src_charnock_defaults. Qed.
+
+Theorem source_first_guess_is_the_model : forall P U,
+  RoughnessSrc.roughness_wu U (c_elev P) (c_kappa P) = guess_wu P U.
+Proof. exact src_guess_wu. Qed.
+
+Theorem source_drag_is_the_model : forall P U z, U <> 0 -> 0 < z -> ln (c_elev P / z) <> 0 ->
+  drag_of_roughness P z = Some (RoughnessSrc.drag_coefficient U z (c_elev P) (c_kappa P)).
+Proof. exact src_drag. Qed.
+
 Theorem charnock_G_def : forall P U z, 0 < z -> ln (c_elev P / z) <> 0 ->
   charnock_G P U z = Some (charnock P (c_kappa P * U / ln (c_elev P / z))).
 Proof. exact charnock_G_def. Qed.
